@@ -476,7 +476,7 @@ class SpecMixin:
                 k = self.sv(e.args[0], ctx)
                 d = self.sv(e.args[1], ctx).t if len(e.args) > 1 else smt.NONE
                 return SV(z3.If(self.dict_has(st, base.t, k.t), self.dict_val(st, base.t, k.t), d))
-            if m in ("upper", "lower") and not e.args:
+            if m in ("upper", "lower", "strip", "lstrip", "rstrip") and not e.args:
                 f = self.get_uf("str_" + m, [smt.StrS], smt.StrS)
                 return SV(smt.mk_str(f(Val.s(base.t))), "str")
             if m == "translate" and len(e.args) == 1:
